@@ -26,7 +26,7 @@ ASSUMPTIONS = ["trusted base: the library's fresh-construction path (checked by 
                "transient states between the public setters of a compound edit are never read"]
 FLOORS = {'quick': {'fresh-compare': 4000, 'shadow': 600, 'copy-independence': 150, 'container-read': 150},
           'thorough': {'fresh-compare': 40000, 'shadow': 6000, 'copy-independence': 1500}}
-MANDATORY_TAGS = ['refused-edit', 'sampling:takes-the-value-of-another-direction', 'kept-sizes', 'kept-sizes:given-to-another-object', 'curve', 'surface', 'volume', 'rational', 'container', 'copy', 'op:reverse', 'op:transpose', 'op:flip', 'op:insert',
+MANDATORY_TAGS = ['shared-tessellator', 'refused-edit', 'sampling:takes-the-value-of-another-direction', 'kept-sizes', 'kept-sizes:given-to-another-object', 'curve', 'surface', 'volume', 'rational', 'container', 'copy', 'op:reverse', 'op:transpose', 'op:flip', 'op:insert',
                   'op:remove', 'op:refine', 'op:weights', 'op:ctrlpts', 'op:delta', 'op:translate', 'op:degree', 'op:knotvector',
                   'op:container-add', 'op:container-transform', 'op:container-deepcopy', 'read-mutate-read', 'op:container-delta-one-direction']
 TECHNIQUE = ("runtime monitoring: history driver with an online differential oracle (every read of a derived view vs the same read "
@@ -130,6 +130,9 @@ def gen(rng, tier, shard, nshards):
             pd = rng.choice([1, 2, 2, 3])
             yield {'kind': 'refused-edit', 'seed': rng.randrange(1 << 30),
                    'sd': G.rand_shape(rng, pd, dim=3 if pd > 1 else rng.choice([2, 3]), clamped_only=True, maxextra=3, maxdeg=3, pcls='uniform')}
+        if i % 4 == 2:
+            yield {'kind': 'shared-tessellator', 'seed': rng.randrange(1 << 30),
+                   'shapes': [G.rand_shape(rng, 2, dim=3, clamped_only=True, maxextra=2, maxdeg=3, pcls='uniform') for _ in range(2)]}
         if i % 3 == 0:
             pd = rng.choice([1, 2, 2, 3])
             yield {'kind': 'kept-sizes', 'seed': rng.randrange(1 << 30),
@@ -242,7 +245,47 @@ def check_refused_edit(case, ctx):
               'what they reported before the call: %r' % (how, type(o).__name__, bad_views or ['definition']), what='fresh-equal')
 
 
+def check_shared_tessellator(case, ctx):
+    """(fifth hunt) ONE configured tessellation component is given to two surfaces (`for s in surfaces: s.tessellator = tsl`): the mesh
+    each surface - and a container of both - hands out is the mesh a freshly built surface hands out, whichever was read first"""
+    from geomdl import tessellate, multi
+    rng = random.Random(case['seed'])
+    ctx.tag('shared-tessellator')
+    ctx.nontriv(True)
+    n = rng.randint(3, 6)
+
+    def build_all():
+        es = [G.build(sd) for sd in case['shapes']]
+        for e_ in es:
+            e_.sample_size = n
+        return es
+    cls = rng.choice([tessellate.TriangularTessellate, tessellate.QuadTessellate])
+    es, fresh_ = build_all(), build_all()
+    tsl = cls()
+    for e_ in es:
+        e_.tessellator = tsl
+    for e_ in fresh_:
+        e_.tessellator = cls()
+    order = [0, 1] if rng.random() < 0.5 else [1, 0]
+    use_container = rng.random() < 0.4
+    if use_container:
+        agg = [list(v.data) for v in multi.SurfaceContainer(*es).vertices]
+        exp = [list(v.data) for v in multi.SurfaceContainer(*fresh_).vertices]
+        ctx.check(len(agg) == len(exp) and all(near(a_, b_) for a_, b_ in zip(agg, exp)), 'derived/shared-tessellator',
+                  'container of two surfaces which were given ONE tessellation component: its vertices are not those of a container of two '
+                  'freshly built surfaces (first difference at vertex %r)' % next((i_ for i_, (a_, b_) in enumerate(zip(agg, exp)) if not near(a_, b_)), None),
+                  what='read')
+    for k_ in order + order:
+        got = [list(v.data) for v in es[k_].vertices]
+        exp = [list(v.data) for v in fresh_[k_].vertices]
+        ctx.check(len(got) == len(exp) and all(near(a_, b_) for a_, b_ in zip(got, exp)) and len(es[k_].faces) == len(fresh_[k_].faces),
+                  'derived/shared-tessellator', 'two surfaces were given ONE tessellation component; surface %d (read %s) reports vertices which are not '
+                  'those of a freshly built surface' % (k_, 'first' if k_ == order[0] else 'after the other one'), what='read')
+
+
 def check(case, ctx):
+    if case.get('kind') == 'shared-tessellator':
+        return check_shared_tessellator(case, ctx)
     if case.get('kind') == 'kept-sizes':
         return check_kept_sizes(case, ctx)
     if case.get('kind') == 'refused-edit':
